@@ -54,6 +54,8 @@ def list_clauses(cmd, lay, expected):
 class _ListUnit(Unit):
     properties = ("C05", "C01", "C03", "C17", "C09")
     frame_check = True
+    level = "bounded"
+    bound_note = "list shapes (number and kinds of pages / TransportIDs / CSCD and segment descriptors) are enumerated: 1-2 mode pages, 0-3 TransportIDs, 0-2 CSCDs, 0-3 segments; all numeric values symbolic"
 
     def interp_config(self, case):
         from .converter import l0_contracts
